@@ -28,6 +28,7 @@ SENDER_SETS = {
 RECV_T_TAGS = [0, 1, 10, 20, 21, 22, 40, 41]
 RECV_G_TAGS = [0, 1, 2, 3, 10, 11, 12, 13, 14, 15, 16, 17, 18]
 KW = [0, 0, 0, 1, 1, 1, 2, 3, 4, 5]          # component tag weights
+KW10 = [0, 1, 2, 3, 4, 5, 6, 7, 8, 8, 9, 9]      # 'wide' profile: all ten component types
 
 class Gen:
     def __init__(self, seed, profile='mixed'):
@@ -170,6 +171,8 @@ class Gen:
                      addgeu=2, addteu=2, addcu=1)   # registrations without a TypeId (descriptor API): fresh model tag 1000+n each
         elif self.profile == 'cascade':
             w.update(rmc=9, addc=3, insert=30, spawn=9, send=16, sendto=4, remove=6, despawn=4, addh=6, rmh=1, addge=0, addte=1, rmge=0, rmte=1, panicat=1, fuel=0)
+        elif self.profile == 'wide':
+            w.update(insert=40, remove=10, despawn=3, spawn=6, send=8, sendto=4, addh=8, rmh=1, rmc=2, addc=1, addge=0, addte=0, rmge=0, rmte=0, panicat=0, fuel=0)
         elif self.profile == 'chains':
             w.update(addh=20, send=22, sendto=12, insert=12, spawn=10, rmh=5, remove=4, despawn=4, rmc=1, addc=0, addge=0, addte=0, rmge=0, rmte=0, panicat=1, fuel=1)
         names = list(w); weights = [w[k] for k in names]
@@ -187,14 +190,24 @@ class Gen:
             if r.random() < 0.7:
                 ops.append('addh %s - 1 0 0 1 T10m %s 0 ' % (r.choice('HML'), r.choice(['e', 't0', 'o r0'])))
                 self.count('handler_despawn_taker')
+        if self.profile == 'wide':
+            # entities with nine and ten components, built in different insertion orders, then overwrites / removals of
+            # components that sort late and fetchers over them
+            ops += ['spawn', 'spawn', 'spawn']
+            for e in range(3):
+                order = list(range(10)); r.shuffle(order)
+                if e == 2: order = order[:r.randrange(7, 10)]
+                ops += ['insert %d %d' % (e, k) for k in order]
+            ops += ['addh M - 0 0 %d 2 G0r F %s 0 ' % (r.choice([0, 2]), q) for q in r.sample(['t3 r0 r8 r9', 't2 m8 r9', 't2 e m9', '| r8 r9', 't2 o r8 w r9'], 3)]
+            ops += ['send 0']
         if self.profile == 'registry':
             ops += ['spawn', 'spawn', 'insert 0 0', 'insert 1 1'] + [self.notify_handler() for _ in range(r.randrange(1, 4))]
         for _ in range(n_ops):
             op = r.choices(names, weights)[0]
             self.count('op_' + op)
             if op == 'spawn': ops.append('spawn')
-            elif op == 'insert': ops.append('insert %d %d' % (r.randrange(0, 16), r.choice(KW)))
-            elif op == 'remove': ops.append('remove %d %d' % (r.randrange(0, 16), r.choice(KW)))
+            elif op == 'insert': ops.append('insert %d %d' % (r.randrange(0, 16), r.choice(KW10 if self.profile == 'wide' else KW)))
+            elif op == 'remove': ops.append('remove %d %d' % (r.randrange(0, 16), r.choice(KW10 if self.profile == 'wide' else KW)))
             elif op == 'despawn': ops.append('despawn %d' % r.randrange(0, 16))
             elif op == 'send': ops.append('send %d' % (r.choice([0, 0, 1]) if self.profile == 'chains' else r.choice([0, 0, 1, 1, 2, 3])))
             elif op == 'sendto': ops.append('sendto %d %d' % (r.randrange(0, 16), 0 if self.profile == 'chains' else r.choice([0, 0, 1, 1, 2, 3])))
@@ -214,7 +227,7 @@ class Gen:
         ops.append('drop')
         return ops
 
-def write_histories(path, seed, n_hist, n_ops, profiles=('mixed', 'structural', 'events', 'panics', 'chains', 'registry', 'cascade')):
+def write_histories(path, seed, n_hist, n_ops, profiles=('mixed', 'structural', 'events', 'panics', 'chains', 'registry', 'cascade', 'wide')):
     g = None
     hists = []
     stats = {}
